@@ -63,14 +63,17 @@ func (ds *defaultSpreaderPipeline) worker(ctx context.Context, wg *sync.WaitGrou
 		case <-ctx.Done():
 			return
 		case root, ok := <-roots:
+			verifPoint("spread.recv")
 			if !ok {
 				return
 			}
 
 			ds.Lock()
+			verifPoint("spread.locked")
 			err := ds.spreadBranch(root)
 			ds.Unlock()
 			if err != nil {
+				verifPoint("spread.err")
 				errc <- err
 				return
 			}
@@ -129,10 +132,12 @@ func (f *formattedSpreaderPipeline[T]) spread(ctx context.Context, w io.Writer, 
 			case <-ctx.Done():
 				return
 			case root, ok := <-roots:
+				verifPoint("spread.recv")
 				if !ok {
 					break BREAK
 				}
 				if err := encode(toFormattedNode(root, f.formattedRoot(root.name))); err != nil {
+					verifPoint("spread.err")
 					errc <- err
 				}
 			}
@@ -165,6 +170,7 @@ func (cs *colorizeSpreaderPipeline) spread(ctx context.Context, w io.Writer, roo
 			case <-ctx.Done():
 				return
 			case root, ok := <-roots:
+				verifPoint("spread.recv")
 				if !ok {
 					break BREAK
 				}
@@ -177,11 +183,13 @@ func (cs *colorizeSpreaderPipeline) spread(ctx context.Context, w io.Writer, roo
 						cs.spreadBranch(root),
 						cs.summary()),
 				); err != nil {
+					verifPoint("spread.err")
 					errc <- err
 					return
 				}
 			}
 			if err := bw.Flush(); err != nil {
+				verifPoint("spread.err")
 				errc <- err
 				return
 			}
